@@ -147,6 +147,9 @@ def patch_tokens(isa_, patch, mid, func, bk, suffix=None):
             toks.append({"t": "cfi", "d": [(pt[1], tuple(pt[2]), None)], "b": ("patch", mid), "k": j, "part": "patch"})
         elif pt[0] == "raw":
             raise ValueError("raw patch text has no reference expansion")
+        elif pt[0] == "side":
+            # contents the patch brings for a section of its own (SIDE_TEXT): no part of the text it is inserted into
+            toks.append({"t": "side", "patch": mid})
         else:
             kind = "d" if pt[0] in ("d", "q") else "c"
             toks.append({"t": "ins", "ins": pt, "uid": ("patch", mid, j), "f": func if kind == "c" else None, "bk": kind if bk == "c" else "d", "ann": {}, "blk": None, "patch": mid})
@@ -355,6 +358,7 @@ def flatten(spec, secs, proxied):
     # belongs to a function without being an instruction
     empty_code = {b["n"]: b.get("f") for s in spec["sections"] for b in s["blocks"] if b["k"] == "c" and not b["i"]}
     zero_code = {}
+    nside = 0
     for sname, toks in secs.items():
         pos = 0
         data = b""
@@ -365,6 +369,8 @@ def flatten(spec, secs, proxied):
                 continue
             if t["t"] == "blk" and t.get("b") in empty_code:
                 zero_code[(sname, pos)] = empty_code[t["b"]]
+            if t["t"] == "side":
+                nside += 1
             if t["t"] == "ins":
                 t["_key"] = (sname, pos)
                 prev_kind = t["bk"]
@@ -444,6 +450,8 @@ def flatten(spec, secs, proxied):
                 j += 1
             if j is not None and j < len(regions):
                 L.func_entries.setdefault(f, set()).add((sname, regions[j]["pos"]))
+    if nside:
+        L.bytes[".vfside"] = SIDE_BYTES * nside
     for n in proxied:
         L.labels[n] = "proxy"
     for n in ext:
@@ -657,6 +665,10 @@ def insn_offsets(isa_, b):
     return offs
 
 
+SIDE_TEXT = '.section .vfside,"a",@progbits\n.byte 1, 2, 3\n.text'
+SIDE_BYTES = bytes([1, 2, 3])
+
+
 def patch_text(isa_, patch):
     lines = []
     for pt in patch:
@@ -665,6 +677,8 @@ def patch_text(isa_, patch):
             lines.append("%s %s" % (pt[1], ", ".join(str(x) for x in pt[2])))
         elif pt[0] == "raw":
             lines.append(pt[1])
+        elif pt[0] == "side":
+            lines.append(SIDE_TEXT)
         else:
             lines.append(isa_.asm(pt))
     return "\n".join(lines) + "\n"
